@@ -176,7 +176,7 @@ func init() {
 				}
 				c14open(x, batch)
 			case "open-many":
-				n := []int{253, 254, 300}[x.Choose(3, "count")]
+				n := []int{253, 254, 300, -250}[x.Choose(4, "count")] // negative: that many items that all fail (missing parent, names of ~120 bytes)
 				if x.Dry() {
 					return
 				}
@@ -280,7 +280,7 @@ func c14open(x *mc.X, batch []int) {
 	}
 	if err != nil {
 		x.Failf("C14/open/whole-batch-failed", "%s failed as a whole: %v (a failing item must not affect the others)", ctx, err)
-		if e := c.Ping(); e != nil {
+		if e := envUsable(c); e != nil {
 			c14pool.drop()
 		}
 		return
@@ -337,9 +337,8 @@ func c14open(x *mc.X, batch []int) {
 	if _, e := os.Lstat(root + "/w/escape-created-through-link"); e == nil {
 		x.Failf("C14/open/created-through-symlink", "%s: a file was created through a planted dangling symlink", ctx)
 	}
-	var perr error
-	if !withTimeout(horizon, func() { perr = c.Ping() }) || perr != nil {
-		x.Failf("C14/open/protocol-affected", "%s: the following Ping failed: %v", ctx, perr)
+	if perr := envUsable(c); perr != nil {
+		x.Failf("C14/open/protocol-affected", "%s: the following request failed: %v", ctx, perr)
 		c14pool.drop()
 	}
 	if mixed {
@@ -354,8 +353,43 @@ func c14many(x *mc.X, n int) {
 		return
 	}
 	_ = root
-	x.Note("open-batch", fmt.Sprintf("%d new files", n))
 	var cmds []container.OpenCmd
+	if n < 0 {
+		// every item fails: the reply carries one error text per item
+		n = -n
+		x.Note("open-batch", fmt.Sprintf("%d items that all fail (missing parent directory, long names)", n))
+		for i := 0; i < n; i++ {
+			cmds = append(cmds, container.OpenCmd{Path: fmt.Sprintf("/w/no-such-directory-%s/f%d", strings.Repeat("x", 90), i), Flag: os.O_RDONLY})
+		}
+		var res []container.OpenCmdResult
+		var err error
+		returned := withTimeout(horizon, func() { res, err = c.Open(cmds) })
+		nerr := 0
+		for _, r := range res {
+			if r.Err != nil {
+				nerr++
+			}
+			if r.File != nil {
+				r.File.Close()
+			}
+		}
+		x.Distinct(fmt.Sprint("many-failing", n, err != nil, nerr))
+		x.Outcome(fmt.Sprintf("open-many-failing:%d:err=%v:item-errors=%d", n, err != nil, nerr))
+		if !returned {
+			x.Failf(fmt.Sprintf("C14/open-many-failing/blocks/%d", n), "a batch of %d failing opens did not return", n)
+			c14pool.drop()
+			return
+		}
+		if err == nil && nerr != n {
+			x.Failf(fmt.Sprintf("C14/open-many-failing/results/%d", n), "a batch of %d failing opens returned %d item errors", n, nerr)
+		}
+		if perr := envUsable(c); perr != nil {
+			x.Failf(fmt.Sprintf("C14/open-many-failing/environment-lost/%d", n), "a batch of %d opens that all fail (answer: %v) left the environment unusable: %v", n, err, perr)
+			c14pool.drop()
+		}
+		return
+	}
+	x.Note("open-batch", fmt.Sprintf("%d new files", n))
 	for i := 0; i < n; i++ {
 		cmds = append(cmds, container.OpenCmd{Path: fmt.Sprintf("/w/m%d", i), Flag: os.O_CREATE | os.O_WRONLY, Perm: 0644})
 	}
@@ -379,8 +413,7 @@ func c14many(x *mc.X, n int) {
 	if err == nil && nfile != n {
 		x.Failf(fmt.Sprintf("C14/open-many/lost-descriptors/%d", n), "a batch of %d opens returned no error but only %d files", n, nfile)
 	}
-	var perr error
-	if !withTimeout(horizon, func() { perr = c.Ping() }) || perr != nil {
+	if perr := envUsable(c); perr != nil {
 		x.Failf(fmt.Sprintf("C14/open-many/environment-lost/%d", n), "a batch of %d opens (answer: %v, %d files) left the environment unusable: %v", n, err, nfile, perr)
 		c14pool.drop()
 	}
